@@ -109,7 +109,7 @@ def run(ctx):
     plan = (("default", "TraceRefreshHold.cfg", ctx.pick(200, 1500), ctx.pick(32, 40)),
             ("explicit", "TraceRefreshHoldExplicit.cfg", ctx.pick(50, 400), ctx.pick(32, 40)),
             # refreshes through the real snapstate.Update + task runner (link-snap)
-            ("realrefresh", "TraceRefreshHold.cfg", ctx.pick(6, 80), 14),
+            ("realrefresh", "TraceRefreshHold.cfg", ctx.pick(6, 48), 14),
             # whole gate-auto-refresh hook runs: real hook handler + real snapctl refresh --hold/--proceed
             ("hookrun", "TraceRefreshHold.cfg", ctx.pick(60, 1500), 14))
     groups = {}          # trace cfg -> rows (modes sharing a cfg are validated in one TLC run; every history starts
